@@ -16,7 +16,7 @@ from __future__ import annotations
 
 import json
 
-from . import core, optgen, rwtrace
+from . import core, foldtrace, optgen, rwtrace
 
 LEVEL = "model_checking"
 
@@ -169,6 +169,9 @@ def run(ctx: core.Ctx):
         "end_every_graph_topologically_ordered": "multi_output_insertion_point",
         "apply_replacement_reads_visible_values": "multi_output_insertion_point",
     })
+    # ... and the recorded executions of the constant folder (hooks in _constant_folding.py), executed by TLC on FoldApply.tla
+    case_traces = optgen.fold_traces_of(pairs, "derived") + optgen.fold_traces_of(lib, "library") + optgen.fold_traces_of(fams, "family")
+    foldtrace.stage(ctx, foldtrace.dedup(case_traces, 2500 if ctx.quick else 30000, ctx.seed), "C04")
     for fam, res in fams:
         if isinstance(res, dict):
             for v in res["variants"]:
